@@ -376,6 +376,27 @@ class ProgGen:
         t = [q for q in self.qids if q not in cur][:1] or self._targets_for(c)
         self.pending.append({"op": "target", "qubits": t[0] if r.random() < 0.5 else t, "ch": n})
 
+    def _motif_eom_at_zero(self, op: dict, c: dict) -> None:
+        """EOM mode entered on a channel that is still empty (for a local one right after its first, zero-length,
+        target instruction): blocks starting at t = 0."""
+        r = self.rng
+        if self.pending or not c.get("eom") or r.random() >= self.motifs.get("eom-at-zero", 0.12):
+            return
+        n = op["name"]
+        if c["addr"] == "Local":
+            first = op.get("initial_target")
+            if first is None:
+                first = self._targets_for({"spec": c}, 1)
+                self.pending.append({"op": "target", "qubits": first[0], "ch": n})
+            cur = set(first if isinstance(first, list) else [first])
+            other = [q for q in self.qids if q not in cur]
+            if other and r.random() < 0.6:  # a retarget at t = 0 (zero-length when the channel has no retarget times)
+                self.pending.append({"op": "target", "qubits": pick(r, other), "ch": n})
+        amax = c.get("max_amp") or 12.0
+        self.pending.append({"op": "enable_eom_mode", "ch": n, "amp_on": r6(amax * pick(r, [0.3, 0.6, 1.0])),
+                             "detuning_on": pick(r, [0.0, 1.0, -2.0]),
+                             **({"opt_off": pick(r, [0.0, -10.0, 10.0])} if r.random() < 0.5 else {})})
+
     # -- helpers -------------------------------------------------------------
     def _style(self, op: dict) -> dict:
         if self.styles:
@@ -657,6 +678,7 @@ class ProgGen:
                 ([] if c["addr"] == "Local" else list(self.qids)),
             }
             self.used_ids.add(op["ch_id"])
+            self._motif_eom_at_zero(op, c)
             self.mode = "xy" if c["cls"] == "Microwave" else "ising"
             if self.mode == "ising":
                 self._slm_dmm_declare()
